@@ -117,6 +117,7 @@ func genDispatch(c *ctx) string {
 	b.WriteString("def toolOmitsDirectives : Bool := " + tod + "\n")
 	b.WriteString("def toolEmbedRaw : Bool := " + ter + "\n")
 	b.WriteString("def eventVarsEmpty : Bool := " + eventVarsForm(c) + "\n")
+	b.WriteString("def subOrderByMap : Bool := " + subOrderForm(c) + "\n")
 	b.WriteString("def schemaDuringScan : Bool := " + schemaRollbackForm(c) + "\n")
 	lnc, su, sbe := replaceArgVarsForms(c)
 	b.WriteString("def objectUnchecked : Bool := " + objectArmForm(c) + "\n")
@@ -422,10 +423,37 @@ func eventVarsForm(c *ctx) string {
 	case strings.Contains(a, "vars := map[string]interface{}{}") && strings.Contains(a, "root.resolve(event, vars, s.field, s.field.ConType, MaxResolveDepth)") && !strings.Contains(r, "sub.vars"):
 		return "true"
 	case !strings.Contains(a, "vars :=") && strings.Contains(a, "root.resolve(event, s.vars, s.field, s.field.ConType, MaxResolveDepth)") &&
-		strings.Contains(r, "if sub, _ := val.(*Subscription); sub != nil { sub.vars = opVars root.subscribe(sub)"):
+		(strings.Contains(r, "if sub, _ := val.(*Subscription); sub != nil { sub.vars = opVars root.subscribe(sub)") ||
+			strings.Contains(r, "if sub, _ := subMap[key].(*Subscription); sub != nil { delete(subMap, key) sub.vars = opVars root.subscribe(sub)")):
 		return "false"
 	}
 	return unknown("AddEvent variables", c.pos(ae))
+}
+
+// subOrderForm reads the registration loop of the subscription branch of ResolveExecutable: the subscriptions of
+// one request are registered in the iteration order of the result map (D81: random) or in the order the fields
+// are written, fragments opened (selKeys, body pinned).
+func subOrderForm(c *ctx) string {
+	re := c.funcs["Root.ResolveExecutable"]
+	if re == nil {
+		return unknown("ResolveExecutable", "resolve.go")
+	}
+	norm := func(n ast.Node) string {
+		t := regexp.MustCompile(`(?m)//.*$`).ReplaceAllString(c.src(n), "")
+		return regexp.MustCompile(`\s+`).ReplaceAllString(t, " ")
+	}
+	r := norm(re.Body)
+	switch {
+	case strings.Contains(r, "for _, val := range subMap { if sub, _ := val.(*Subscription); sub != nil {") && c.funcs["selKeys"] == nil:
+		return "true"
+	case strings.Contains(r, "for _, key := range selKeys(op.Sels, nil) { if sub, _ := subMap[key].(*Subscription); sub != nil { delete(subMap, key) sub.vars = opVars root.subscribe(sub) found = true } }"):
+		sk := c.funcs["selKeys"]
+		const want = `{ for _, sel := range sels { switch ts := sel.(type) { case *Field: keys = append(keys, ts.key()) case *Inline: keys = selKeys(ts.Sels, keys) case *FragRef: if ts.Fragment != nil { keys = selKeys(ts.Fragment.Sels, keys) } } } return keys }`
+		if sk != nil && norm(sk.Body) == want {
+			return "false"
+		}
+	}
+	return unknown("subscription registration loop", c.pos(re))
 }
 
 // argsInPlaceForm: are the literals of the parsed request (and the values handed to Input.CoerceIn / List.CoerceIn)
